@@ -227,94 +227,114 @@ def tolerance_consistency(rep, F):
 
 
 def rdp_metric(rep, F):
-    """R9.6: shape of compute_rdp that the eps bound rests on (necessary conditions, not the bound itself)."""
-    from .c01 import opaque
+    """R9.6: compute_rdp on slices of 4 and 5 vertices (exact unrolling of whatever loop / fold form is used).  The per-vertex value must be
+    the Euclidean distance from the vertex to the SEGMENT Line(first, last); with those distances D_i and eps as the only unknowns, the path
+    condition of every outcome is model-checked by enumeration over a small domain:
+       culling the interior (or keeping everything under the minimum-size guard) only if every D_i <= eps,
+       splitting at vertex k only if D_k is the maximum and D_k > eps."""
+    import itertools
     from ..symex import bare
     from ..evalterm import Evaluator, NoModel
-    rep.rule("R9.6", "compute_rdp: vertices are culled only on `farthest > eps` false, where farthest is the maximum over ALL interior vertices of the "
-                     "Euclidean point-to-SEGMENT distance to Line(first, last); the split recursion keeps the farthest vertex")
+    rep.rule("R9.6", "compute_rdp (4 and 5 vertices, exact unrolling): interior vertices are dropped only when every point-to-SEGMENT distance to Line(first, last) is <= eps; a split is made "
+                     "only at a farthest vertex and only when its distance exceeds eps")
     try:
         fn = F.one(r"^geo::algorithm::simplify::compute_rdp$", crates=("geo",))
-        paths = opaque(F, loop_bound=1).run(fn)
-    except (KeyError, Unanalysable) as e:
+    except KeyError as e:
         rep.bad("R9.6", "anchor", str(e))
         return
-    folds = set()
-    culls = 0
-    for p in paths:
-        if p.kind != "ret":
-            continue
-        r = bare(p.ret)
-        atoms = [(bare(t), v) for t, v in p.pc]
-        if r.startswith("vec!([a1[0], a1[(len(a1) Sub 1)]])") and ("(len(a1) == 2)", 0) in atoms:
-            culls += 1
-            g = [(a, v) for a, v in atoms if a.startswith("(a3 < fold(") or a.endswith(" <= a3)") and a.startswith("(fold(")]
-            if not g or not ((g[-1][0].startswith("(a3 < ") and g[-1][1] == 0) or (g[-1][0].startswith("(fold(") and g[-1][1] == 1)):
-                rep.bad("R9.6", "cull-guard", "interior vertices are culled on a path that did not establish `farthest_distance <= eps` (path: %s)" % show_pc(p.pc)[:200], where=fn.loc())
-                return
-            folds.add(g[-1][0])
-    if culls == 0 or len(folds) != 1:
-        rep.bad("R9.6", "shape", "the cull exit of compute_rdp was not recognised (%d cull paths, %d guards)" % (culls, len(folds)), where=fn.loc())
-        return
-    fold = folds.pop()
-    if "fold(map(skip(take(enumerate(iter(a1)), (len(a1) Sub 1)), 1), closure[" not in fold or ", (0, zero()), closure[" not in fold:
-        rep.bad("R9.6", "coverage", "the farthest distance is %s; expected the fold over every interior vertex (enumerate, take(len-1), skip(1)), starting from zero" % fold[:240], where=fn.loc())
-        return
-    chord_ok = "closure[new(a1[0].coord, a1[(len(a1) Sub 1)].coord)]" in fold
-    rep.ok("R9.6", "cull-guard+coverage")
-    cl = F.closures_of(fn)
-    mapc = [g for g in cl if any((c.method == "distance" and (c.trait or "").endswith("Distance")) for c in g.calls())]
-    other = [g for g in cl if g not in mapc]
-    # the metric: exactly one geo call in the map closure, the Euclidean Coord/Point-to-Line distance, applied to the vertex and the captured chord
-    ok_metric = False
-    for g in cl:
-        for q in opaque(F).run(g):
-            if q.kind == "ret" and bare(q.ret) == "(a2.0, distance(Euclidean::Euclidean(), a2.1.coord, a1.0))":
-                for c in g.calls():
-                    if c.method == "distance":
-                        tys = [str(t) for t in c.raw.get("arg_tys", [])]
-                        if len(tys) == 3 and tys[0].endswith("Euclidean") and re.search(r"(coord::Coord|point::Point)<T>$", tys[1]) and re.search(r"^&.*line::Line<T>$", tys[2]):
-                            ok_metric = chord_ok
-    if ok_metric:
-        rep.ok("R9.6", "metric:point-to-segment")
-    else:
-        descr = []
-        for g in cl:
-            for q in opaque(F).run(g):
-                if q.kind == "ret":
-                    descr.append(bare(q.ret)[:160])
-        rep.bad("R9.6", "metric", "the per-vertex value is not Euclidean.distance(vertex.coord, &Line(first, last)) (the distance to the SEGMENT); closures return %s. A distance to the "
-                "infinite chord line under-estimates for back-tracking vertices, which are then dropped although farther than eps from the retained segment" % descr[:3], where=fn.loc())
-    # the fold keeps the maximum
-    okmax = False
-    for g in cl:
-        qs = [q for q in opaque(F).run(g) if q.kind == "ret"]
-        if len(qs) == 2 and all(len(q.pc) == 1 for q in qs):
-            good = True
-            for d0, d1 in ((1, 2), (2, 1), (2, 2)):
-                ev = Evaluator(F, {("arg", 2): {"0": 10, "1": d0}, ("arg", 3): {"0": 20, "1": d1}}, {})
-                try:
-                    hit = ev.select_path(qs)
-                    val = ev.ev(hit[0].ret) if len(hit) == 1 else None
-                except NoModel:
-                    val = None
-                dist = val[1] if isinstance(val, (tuple, list)) else (val or {}).get("1") if isinstance(val, dict) else None
-                idx = val[0] if isinstance(val, (tuple, list)) else (val or {}).get("0") if isinstance(val, dict) else None
-                if dist != max(d0, d1) or (d0 != d1 and idx != (10 if d0 > d1 else 20)):
-                    good = False
-            if good:
-                okmax = True
-    if okmax:
-        rep.ok("R9.6", "fold:max")
-    else:
-        rep.bad("R9.6", "fold", "the fold over the interior vertices does not keep the (index, distance) pair with the maximum distance", where=fn.loc())
-    # recursion: both halves share the farthest vertex
-    rec = [bare(p.ret) for p in paths if p.kind == "ret" and "compute_rdp(" in bare(p.ret)]
-    if rec and all("RangeToInclusive" in r for r in rec):
-        rep.ok("R9.6", "split:[..=k]")
-    else:
-        rep.bad("R9.6", "split", "the recursive split is %s; expected compute_rdp(&v[..=k]) followed by compute_rdp(&v[k..])" % [r[:120] for r in rec][:1], where=fn.loc())
+    rows = 0
+    for N in (4, 5):
+        elems = tuple(("index", ("deref", ("arg", 1)), ("const", k)) for k in range(N))
+        sl = ("&", ("array", elems))
+        ex = Symex(F, no_inline=[r"Distance.*::distance$", r"compute_rdp$"], inline_crates=("geo", "geo_types"), loop_bound=N + 3, max_paths=50000, budget_s=60, concrete_iters=True)
+        try:
+            ps = ex.run(fn, args=[sl, ("arg", 2), ("arg", 3)])
+        except Unanalysable as e:
+            rep.bad("R9.6", "unanalysable", str(e), where=fn.loc())
+            return
+        interior = list(range(1, N - 1))
+        want_line = "Line::Line(into(a1[0].coord), into(a1[%d].coord))" % (N - 1)
 
+        def dist_model(ev, args):
+            pt, ln = bare(args[1]), bare(args[2])
+            m = re.match(r"^a1\[(\d)\]\.coord$", pt)
+            if not m or ln.replace("&", "") != want_line or not bare(args[0]).startswith("Euclidean"):
+                raise NoModel("metric:%s|%s" % (pt, ln))
+            return ev.env["D"][int(m.group(1))]
+        for p in ps:
+            if p.kind == "cut":
+                rep.bad("R9.6", "unbounded", "compute_rdp does not finish within the exact unrolling of %d vertices" % N, where=fn.loc())
+                return
+            if p.kind != "ret":
+                continue
+            r = bare(p.ret)
+            m = re.search(r"compute_rdp\(\[a1\[0\](?:, a1\[\d\])*, a1\[(\d)\]\], a2, a3\)", r)
+            if r.startswith("vec!([a1[0], a1[%d]])" % (N - 1)):
+                outcome = ("cull", None)
+            elif r.startswith("to_owned("):
+                outcome = ("keep", None)
+            elif m:
+                outcome = ("split", int(m.group(1)))
+            else:
+                outcome = ("unknown", r)
+            rows += 1
+            sat = 0
+            for vals in itertools.product((0, 1, 2), repeat=len(interior) + 1):
+                D = dict(zip(interior, vals[:-1]))
+                eps = vals[-1]
+                ev = Evaluator(F, {("arg", 3): eps, "D": D}, {})
+                ev.calls = _Calls(dist_model)
+                ok_ = True
+                for t, v in p.pc:
+                    try:
+                        val = ev.ev(t)
+                    except NoModel as e:
+                        if str(e).startswith("metric:"):
+                            rep.bad("R9.6", "metric", "the per-vertex value is not Euclidean.distance(vertex.coord, &Line(first, last)) (the distance to the SEGMENT): %s. A distance to the infinite "
+                                    "chord line under-estimates for back-tracking vertices, which are then dropped although farther than eps from the retained segment" % str(e)[7:160], where=fn.loc())
+                            return
+                        continue      # an atom about something else (minimum-size guard): unconstrained
+                    except (TypeError, KeyError):
+                        continue
+                    if isinstance(val, bool):
+                        val = 1 if val else 0
+                    if val != v:
+                        ok_ = False
+                        break
+                if not ok_:
+                    continue
+                sat += 1
+                mx = max(D.values())
+                if outcome[0] == "unknown":
+                    rep.bad("R9.6", "outcome", "unexpected result %s for %d vertices with distances %s, eps %s" % (outcome[1][:100], N, D, eps), where=fn.loc())
+                    return
+                if outcome[0] in ("cull", "keep") and mx > eps:
+                    rep.bad("R9.6", "cull-guard", "%d vertices: the interior is dropped / kept as is on a path that admits distances %s with eps = %s (path: %s): a vertex farther than eps from "
+                            "the retained segment is dropped, or no split is made although one is due" % (N, D, eps, show_pc(p.pc)[:160]), where=fn.loc())
+                    return
+                if outcome[0] == "split" and not (D.get(outcome[1]) == mx and mx > eps):
+                    rep.bad("R9.6", "split", "%d vertices: the chain is split at vertex %s on a path that admits distances %s with eps = %s: the split vertex must be a farthest one and farther than eps" % (
+                        N, outcome[1], D, eps), where=fn.loc())
+                    return
+    if rows < 12:
+        rep.bad("R9.6", "floor", "only %d outcome rows" % rows, where=fn.loc())
+    else:
+        rep.ok("R9.6", "rdp-table[%d rows; 4 and 5 vertices]" % rows)
+
+
+class _Calls(dict):
+    """Evaluator call models: Euclidean distance to the chord segment (looked up by vertex), zero()"""
+    def __init__(self, dist):
+        dict.__init__(self)
+        self.dist = dist
+
+    def __contains__(self, path):
+        return path.endswith("::distance") or path.endswith("Zero::zero") or path.endswith("::zero")
+
+    def __getitem__(self, path):
+        if path.endswith("::distance"):
+            return self.dist
+        return lambda ev, args: 0
 
 def recompute(rep, F):
     """R9.8: after a removal both neighbours are re-scored: recompute_triangles walks the two candidate triangles (ll,left,right) and
